@@ -147,6 +147,19 @@ def from_python(v):
     return SV("const", v)
 
 
+FLOAT_INF_ID, FLOAT_NAN_ID, FLOAT_NINF_ID = 3, 4, 7      # reserved ids of the opaque float model (native: decode_obj)
+
+
+def float_special_id(x):
+    if x != x:
+        return FLOAT_NAN_ID
+    if x == float("inf"):
+        return FLOAT_INF_ID
+    if x == float("-inf"):
+        return FLOAT_NINF_ID
+    return None
+
+
 def to_obj(v):
     """Coerce an SV into a PyObj term."""
     k = v.kind
@@ -162,6 +175,10 @@ def to_obj(v):
         return PyObj.PStr(v.t)
     if k == "none":
         return PyObj.PNone
+    if k == "const" and isinstance(v.t, float):
+        fid = float_special_id(v.t)
+        if fid is not None:
+            return PyObj.PFloat(z3.IntVal(fid))
     raise TypeError(f"cannot box {v}")
 
 
